@@ -23,6 +23,11 @@ func init() { extractors = append(extractors, extractLsMode) }
 //  2. Where the owner of an entry comes from: the ordered owner-writing steps of fileStatFromInfo (attrs.go,
 //     with fileStatFromInfoOs of the unix build inlined; a later step overrides an earlier one) and the priority
 //     order of runLs's uid/gid lookup (ls_formatting.go with lsLinksUIDGID of ls_unix.go inlined; first match wins).
+//     runLs shapes recognised: `if v, ok := dirent.(I); ok { uid…; gid… } else { switch sys := dirent.Sys().(type) {…} }`
+//     (interface first; current tree) and the bare Sys() type switch whose default clause holds
+//     `if v, ok := dirent.(I); ok { uid…; gid…; break }` (interface after the typed clauses; the shape before fix
+//     286d03f, kept so that a return to it flips the table instead of merely failing).  The default clause of a type
+//     switch is ordered after all its typed clauses wherever it is written.
 func extractLsMode(x *extractor) {
 	u := x.newUnit("LsMode")
 	u.pf("import Sftp.Model.LsMode\nnamespace Sftp.G\nopen Sftp\n\n")
@@ -665,10 +670,164 @@ func lsOwnerTables(x *extractor, u *unit) {
 		srcL = pi.pos(fd)
 		fi := fd.Type.Params.List[1].Names[0].Name
 		sawInit, sawSwitch := false, false
+		// procSwitch appends the sources of `switch sys := dirent.Sys().(type) {…}`: the typed clauses in source
+		// order, then what the default clause does (it only runs when no typed clause matches)
+		procSwitch := func(ts *ast.TypeSwitchStmt, sys string) bool {
+			var clauses []*ast.CaseClause
+			var dflt *ast.CaseClause
+			for _, c := range ts.Body.List {
+				cc := c.(*ast.CaseClause)
+				if cc.List == nil {
+					dflt = cc
+				} else {
+					clauses = append(clauses, cc)
+				}
+			}
+			if dflt != nil {
+				clauses = append(clauses, dflt)
+			}
+			for _, c := range clauses {
+				cc := c
+				if cc.List != nil {
+					if !lsBody(fn, cc.Body, sys, false) {
+						return false
+					}
+					for _, t := range cc.List {
+						lsOrder = append(lsOrder, ownerSrc{kind: "sysType", name: exprString(t), unc: true})
+					}
+					continue
+				}
+				// default: `if v, ok := dirent.(I); ok { uid…; gid…; break }` then `numLinks, uid, gid = lsLinksUIDGID(dirent)`
+				for _, ds := range cc.Body {
+					if is, isIf := ds.(*ast.IfStmt); isIf {
+						if is.Init == nil || is.Else != nil {
+							u.fail("%s: unrecognised if in the default clause at %s", fn, pi.pos(ds))
+							return false
+						}
+						src, subject, okName, isT := typeTest(pi, is.Init, fi)
+						if !isT {
+							u.fail("%s: if in the default clause is not `v, ok := dirent.(T); ok` at %s", fn, pi.pos(ds))
+							return false
+						}
+						unc, rest, isG := guardOf(pi, is.Cond, okName)
+						if !isG {
+							u.fail("%s: unrecognised condition at %s", fn, pi.pos(is.Cond))
+							return false
+						}
+						n := len(is.Body.List)
+						br, isBr := ast.Stmt(nil), false
+						if n > 0 {
+							br = is.Body.List[n-1]
+							b, isB := br.(*ast.BranchStmt)
+							isBr = isB && b.Tok == token.BREAK && b.Label == nil
+						}
+						if !isBr {
+							u.fail("%s: the interface clause does not end in break (a later source would override it) at %s", fn, pi.pos(ds))
+							return false
+						}
+						if !lsBody(fn, is.Body.List[:n-1], subject, false) {
+							return false
+						}
+						src.unc = unc
+						if !unc {
+							src.note = fmt.Sprintf("runLs %s: additional guard `%s` at %s", src.name, rest, pi.pos(is.Cond))
+						}
+						lsOrder = append(lsOrder, src)
+						continue
+					}
+					if pi.nodeText(ds) != "numLinks, uid, gid = lsLinksUIDGID("+fi+")" {
+						u.fail("%s: unrecognised statement in the default clause at %s", fn, pi.pos(ds))
+						return false
+					}
+					ld := pi.funcDecl("lsLinksUIDGID")
+					if ld == nil || ld.Body == nil || len(ld.Type.Params.List) != 1 || len(ld.Type.Params.List[0].Names) != 1 {
+						u.fail("lsLinksUIDGID not found")
+						return false
+					}
+					lfi := ld.Type.Params.List[0].Names[0].Name
+					sawLInit, sawLSwitch := false, false
+					for _, lst := range ld.Body.List {
+						lt := pi.nodeText(lst)
+						switch {
+						case lt == "numLinks = 1", lt == "return numLinks, uid, gid":
+						case lt == `uid, gid = "0", "0"`:
+							sawLInit = true
+						default:
+							lts, lsys, isLTS := sysSwitch(lst, lfi)
+							if !isLTS || sawLSwitch {
+								u.fail("lsLinksUIDGID: unrecognised statement at %s", pi.pos(lst))
+								return false
+							}
+							sawLSwitch = true
+							for _, lc := range lts.Body.List {
+								lcc := lc.(*ast.CaseClause)
+								if lcc.List == nil {
+									if len(lcc.Body) != 0 {
+										u.fail("lsLinksUIDGID: non-empty default clause at %s", pi.pos(lcc))
+										return false
+									}
+									continue
+								}
+								if !lsBody("lsLinksUIDGID", lcc.Body, lsys, true) {
+									return false
+								}
+								for _, t := range lcc.List {
+									lsOrder = append(lsOrder, ownerSrc{kind: "sysType", name: exprString(t), unc: true})
+								}
+							}
+						}
+					}
+					if !sawLInit || !sawLSwitch {
+						u.fail("lsLinksUIDGID: defaults or Sys() type switch missing")
+						return false
+					}
+				}
+			}
+			return true
+		}
 		for _, st := range fd.Body.List {
 			txt := pi.nodeText(st)
 			if txt == `uid, gid := "0", "0"` {
 				sawInit = true
+				continue
+			}
+			// `if v, ok := dirent.(I); ok { uid…; gid… } else { switch sys := dirent.Sys().(type) {…} }`: interface first
+			if is, isIf := st.(*ast.IfStmt); isIf && is.Init != nil {
+				src, subject, okName, isT := typeTest(pi, is.Init, fi)
+				if !isT {
+					if mentionsOwner(pi, st) {
+						u.fail("%s: uid/gid written outside the recognised shapes at %s", fn, pi.pos(st))
+						return
+					}
+					continue
+				}
+				els, isBlk := is.Else.(*ast.BlockStmt)
+				if sawSwitch || !sawInit || !isBlk || len(els.List) != 1 {
+					u.fail("%s: type test at %s is not `if v, ok := dirent.(T); ok {…} else { switch sys := dirent.Sys().(type) {…} }` after the defaults", fn, pi.pos(st))
+					return
+				}
+				unc, rest, isG := guardOf(pi, is.Cond, okName)
+				if !isG {
+					u.fail("%s: unrecognised condition at %s", fn, pi.pos(is.Cond))
+					return
+				}
+				if !lsBody(fn, is.Body.List, subject, false) {
+					return
+				}
+				src.unc = unc
+				if !unc {
+					src.note = fmt.Sprintf("runLs %s: additional guard `%s` at %s", src.name, rest, pi.pos(is.Cond))
+				}
+				ts, sys, isTS := sysSwitch(els.List[0], fi)
+				if !isTS {
+					u.fail("%s: else branch at %s is not the Sys() type switch", fn, pi.pos(els))
+					return
+				}
+				lsOrder = append(lsOrder, src)
+				sawSwitch = true
+				if !procSwitch(ts, sys) {
+					return
+				}
 				continue
 			}
 			ts, sys, isTS := sysSwitch(st, fi)
@@ -695,102 +854,8 @@ func lsOwnerTables(x *extractor, u *unit) {
 				return
 			}
 			sawSwitch = true
-			for _, c := range ts.Body.List {
-				cc := c.(*ast.CaseClause)
-				if cc.List != nil {
-					if !lsBody(fn, cc.Body, sys, false) {
-						return
-					}
-					for _, t := range cc.List {
-						lsOrder = append(lsOrder, ownerSrc{kind: "sysType", name: exprString(t), unc: true})
-					}
-					continue
-				}
-				// default: `if v, ok := dirent.(I); ok { uid…; gid…; break }` then `numLinks, uid, gid = lsLinksUIDGID(dirent)`
-				for _, ds := range cc.Body {
-					if is, isIf := ds.(*ast.IfStmt); isIf {
-						if is.Init == nil || is.Else != nil {
-							u.fail("%s: unrecognised if in the default clause at %s", fn, pi.pos(ds))
-							return
-						}
-						src, subject, okName, isT := typeTest(pi, is.Init, fi)
-						if !isT {
-							u.fail("%s: if in the default clause is not `v, ok := dirent.(T); ok` at %s", fn, pi.pos(ds))
-							return
-						}
-						unc, rest, isG := guardOf(pi, is.Cond, okName)
-						if !isG {
-							u.fail("%s: unrecognised condition at %s", fn, pi.pos(is.Cond))
-							return
-						}
-						n := len(is.Body.List)
-						br, isBr := ast.Stmt(nil), false
-						if n > 0 {
-							br = is.Body.List[n-1]
-							b, isB := br.(*ast.BranchStmt)
-							isBr = isB && b.Tok == token.BREAK && b.Label == nil
-						}
-						if !isBr {
-							u.fail("%s: the interface clause does not end in break (a later source would override it) at %s", fn, pi.pos(ds))
-							return
-						}
-						if !lsBody(fn, is.Body.List[:n-1], subject, false) {
-							return
-						}
-						src.unc = unc
-						if !unc {
-							src.note = fmt.Sprintf("runLs %s: additional guard `%s` at %s", src.name, rest, pi.pos(is.Cond))
-						}
-						lsOrder = append(lsOrder, src)
-						continue
-					}
-					if pi.nodeText(ds) != "numLinks, uid, gid = lsLinksUIDGID("+fi+")" {
-						u.fail("%s: unrecognised statement in the default clause at %s", fn, pi.pos(ds))
-						return
-					}
-					ld := pi.funcDecl("lsLinksUIDGID")
-					if ld == nil || ld.Body == nil || len(ld.Type.Params.List) != 1 || len(ld.Type.Params.List[0].Names) != 1 {
-						u.fail("lsLinksUIDGID not found")
-						return
-					}
-					lfi := ld.Type.Params.List[0].Names[0].Name
-					sawLInit, sawLSwitch := false, false
-					for _, lst := range ld.Body.List {
-						lt := pi.nodeText(lst)
-						switch {
-						case lt == "numLinks = 1", lt == "return numLinks, uid, gid":
-						case lt == `uid, gid = "0", "0"`:
-							sawLInit = true
-						default:
-							lts, lsys, isLTS := sysSwitch(lst, lfi)
-							if !isLTS || sawLSwitch {
-								u.fail("lsLinksUIDGID: unrecognised statement at %s", pi.pos(lst))
-								return
-							}
-							sawLSwitch = true
-							for _, lc := range lts.Body.List {
-								lcc := lc.(*ast.CaseClause)
-								if lcc.List == nil {
-									if len(lcc.Body) != 0 {
-										u.fail("lsLinksUIDGID: non-empty default clause at %s", pi.pos(lcc))
-										return
-									}
-									continue
-								}
-								if !lsBody("lsLinksUIDGID", lcc.Body, lsys, true) {
-									return
-								}
-								for _, t := range lcc.List {
-									lsOrder = append(lsOrder, ownerSrc{kind: "sysType", name: exprString(t), unc: true})
-								}
-							}
-						}
-					}
-					if !sawLInit || !sawLSwitch {
-						u.fail("lsLinksUIDGID: defaults or Sys() type switch missing")
-						return
-					}
-				}
+			if !procSwitch(ts, sys) {
+				return
 			}
 		}
 		if !sawSwitch {
